@@ -151,10 +151,16 @@ impl FactoryWorld {
                             if *pi != own {
                                 return Err(format!("factory record of set {{{}, {}}} differs from the pair's self-description: factory {:?} vs pair {:?}", a, b, pi, own));
                             }
-                            if pi.asset_infos != m.infos || pi.asset_decimals != m.decimals || pi.requirements != m.requirements || crate::gen::from_u256(&pi.commission_rate.0) != n(m.commission) {
+                            // the record must describe THIS set and carry the true decimals of each asset in the
+                            // position it lists it (requirements / commission are pinned to the pair's own
+                            // report by the equality above; how they derive from the creation arguments is
+                            // not part of the statement)
+                            let same_set = set_key(&pi.asset_infos[0], &pi.asset_infos[1]) == set_key(&m.infos[0], &m.infos[1]);
+                            let want_dec: Vec<Option<u8>> = pi.asset_infos.iter().map(|x| (0..2).find(|&i| m.infos[i] == *x).map(|i| m.decimals[i])).collect();
+                            if !same_set || want_dec != vec![Some(pi.asset_decimals[0]), Some(pi.asset_decimals[1])] {
                                 return Err(format!(
-                                    "record of set {{{}, {}}} is (assets {:?}, decimals {:?}, requirements {:?}, commission {}) but it was created with (assets {:?}, true decimals {:?}, requirements {:?}, commission {}e-18)",
-                                    a, b, pi.asset_infos, pi.asset_decimals, pi.requirements, pi.commission_rate, m.infos, m.decimals, m.requirements, m.commission
+                                    "record of set {{{}, {}}} lists assets {:?} with decimals {:?}; the set was created over {:?} whose true decimals are {:?}",
+                                    a, b, pi.asset_infos, pi.asset_decimals, m.infos, m.decimals
                                 ));
                             }
                         }
